@@ -71,7 +71,11 @@ func migrateInvoiceTaxCombo(tc *tax.Combo) {
 		for _, m := range taxRateVATExemptMigrationMap {
 			if m.Key == tc.Rate {
 				tc.Rate = tax.RateExempt
-				tc.Ext = m.Ext
+				// copy: the document must not share (and later modify) the table's map
+				tc.Ext = make(tax.Extensions, len(m.Ext))
+				for k, v := range m.Ext {
+					tc.Ext[k] = v
+				}
 				break
 			}
 		}
